@@ -64,7 +64,7 @@ GEN_LEAN = os.path.join(GEN_DIR, "MjbLayout.lean")
 GEN_JSON = os.path.join(GEN_DIR, "MjbLayout.json")
 ALLOC_CAP = 256 << 20  # harness/c/c31_mjb.c: alloc_cap
 QUICK_SAMPLED_PER_MODEL = 260
-THOROUGH_SAMPLED_PER_MODEL = 3000
+THOROUGH_SAMPLED_PER_MODEL = 1500
 
 # ------------------------------------------------------------------------------------------ hand-written list
 # Index-valued int arrays of mjModel (include/mujoco/mjmodel.h), written by hand from the field comments:
@@ -545,9 +545,14 @@ def classify(ctx, case, model_out, impl_out, covered, mdl_idx, desc, fails, note
     for t in impl_out.split():
         if t.startswith("san=") or t.startswith("at="):
             san += " " + t
-    if "canary=overwritten" in impl_out or res.startswith("crash") or " crash " in (" " + res + " "):
+    if "canary=overwritten" in res or res.startswith("crash") or " crash " in (" " + res + " "):
         # died inside mj_loadModelBuffer, or wrote past the end of the model buffer it allocated
-        if cls in ("nnames_map", "size", "resize"):
+        if "signed_integer_overflow" in san:
+            if field == "nmocap":
+                fail("c31:loader-nc-int-overflow", "UBSan: `MJ_M(nmocap)*3` overflows `int` in the read loop of mj_loadModelBuffer (%s):%s" % (case["note"], san))
+            else:
+                fail("c31:validate-int-overflow", "UBSan: `adr + num` overflows `int` in mj_validateReferences for a corrupted %s (%s):%s" % (field, case["note"], san))
+        elif cls in ("nnames_map", "size", "resize"):
             fail("c31:loader-memory-unsafe:%s" % field, "mj_loadModelBuffer crashed / wrote past the model buffer with a corrupted %s (%s):%s %s"
                  % (field, case["note"], san, res[:160]))
         else:
@@ -569,7 +574,7 @@ def classify(ctx, case, model_out, impl_out, covered, mdl_idx, desc, fails, note
     # accepted: independent bounds check, then mj_makeData / mj_forward
     kv = dict(t.split("=", 1) for t in orc.split() if "=" in t)
     oob = kv.get("oob", "?")
-    crashed = "crash" in orc.split() or "timeout" in orc.split()
+    crashed = "crash" in orc.split() or "timeout" in orc.split() or "canary=overwritten" in orc
     stage = kv.get("stage", "")
     tail = (" and mj_%s then crashed" % stage) if crashed else ""
     if oob not in ("-", "?"):
@@ -651,7 +656,7 @@ def run(ctx):
     ctx.extra["table_rows_allow_minus_one"] = "all %d rows of MJMODEL_REFERENCES accept -1 (adrsmin < -1 is the only lower test)" % len(info["refs"])
 
     # ---- models, first pass: compile + dump with the real code
-    nmodels = 8 if thorough else 4
+    nmodels = 6 if thorough else 4
     descs = [gen_model(ctx.rng, k) for k in range(nmodels)]
     first = []
     for d in descs:
@@ -732,13 +737,28 @@ def run(ctx):
 
     fails = {}
     notes = {}
+    saved, sized = {}, {}
     outcome_hist = {}
     desc_of = {k: d for k, d, _, _ in models}
     for l, mt, (a, b) in zip(lines, meta, pairs):
         if mt is None:
             continue
         kind = mt[0]
+        if kind == "save":
+            saved[mt[1]] = b
+        elif kind == "size":
+            sized[mt[1]] = b
         if kind == "load":
+            sv = dict(t.split("=", 1) for t in saved.get(mt[1], "").split() if "=" in t)
+            ld = dict(t.split("=", 1) for t in split_out(b)[0].split() if "=" in t)
+            if b.startswith("ok") and (sv.get("fnv") != ld.get("fnv") or sv.get("len") != ld.get("len")):
+                fails.setdefault("c31:roundtrip-differs", []).append(
+                    ("load(save m) re-saved is not byte-identical to save m: saved %s, reloaded %s" % (saved.get(mt[1]), b[:120]),
+                     {"model": mt[1], "description": desc_of[mt[1]]}))
+            if sized.get(mt[1]) != sv.get("len"):
+                fails.setdefault("c31:size-ne-length", []).append(
+                    ("mj_sizeModel = %s but the image written by mj_saveModel has %s bytes" % (sized.get(mt[1]), sv.get("len")),
+                     {"model": mt[1], "description": desc_of[mt[1]]}))
             if not b.startswith("ok"):
                 fails.setdefault("c31:roundtrip-rejected", []).append(("loading an unmodified saved image failed: " + b[:200], {"model": mt[1], "description": desc_of[mt[1]]}))
         elif kind == "trunc":
@@ -772,17 +792,17 @@ def run(ctx):
     # ---- thorough: the same crafted and sampled loads under AddressSanitizer/UBSan/LeakSanitizer
     if thorough:
         av = asan_variant()
-        aimpl = ctx.harness("harness/c/c31_mjb.c", "c31_mjb", variant=av, deps=["harness/mjbuild.h"])
+        aimpl = ctx.harness("harness/c/c31_mjb.c", "c31_mjb", variant=av, extra=("-DC31_SANITIZE",), deps=["harness/mjbuild.h"])
         if aimpl:
             al, am = list(rules) + ["oracle 1"], [None] * (len(rules) + 1)
-            for k, d, dump, img in models[:6]:
+            for k, d, dump, img in models[:4]:
                 al.append("model %s | %s" % (d, dump))
                 am.append(None)
                 idx = [i for i, mt in enumerate(meta) if mt and mt[0] in ("corrupt", "trunc") and mt[1] == k]
                 crafted = [i for i in idx if meta[i][0] == "corrupt" and meta[i][2]["cls"] in ("nnames_map", "header")]
                 rest = [i for i in idx if i not in set(crafted) and not lines[i].startswith("sweep")]
                 ctx.rng.shuffle(rest)
-                for i in crafted + rest[:1500]:
+                for i in crafted + rest[:500]:
                     al.append(lines[i])
                     am.append(meta[i])
                 step = max(1, img.total // 300)
